@@ -901,6 +901,7 @@ const SEC_TRIPLES: [(u8, u8, u8); 10] = [(0, 0, 0), (0, 0, 1), (0, 0, 2), (0, 1,
 fn main() {
     // a stack overflow / abort in the code under test must become a verdict, not a dead check
     vcore::supervise("C02");
+    vcore::install_log_evaluation(); // logging is part of the environment: log arguments are evaluated as under a real subscriber
     let ctx = Ctx::from_args("C02", "exploration");
     let thorough = !ctx.quick();
     ctx.case_timeout_s.store(120, std::sync::atomic::Ordering::Relaxed);
